@@ -4519,6 +4519,16 @@ TARGET_ARGS = [["nosuch.go"], ["a.go", "nosuch.go"], ["nosuch.go", "a.go"], ["./
 
 UPWARD_ARGS = [["../../../a.go"], ["../../.."], ["../../../dir.go/..."], ["../../../a.go", "../../../nosuch.go"], ["../../../locked/x.go", "."], ["../../../../../../../../../../nosuch.go"]]
 
+def patient_gopatch(ctx, cwd, args):
+    """a run of the binary that has to end promptly: 30 s, and once more on its own with 240 s before it counts as not ending (the
+    machine may be busy: the checks run sixteen at a time, possibly next to other work; what is looked for are runs that take
+    minutes or for ever, like F31's)"""
+    code, out, err = cl.gopatch(ctx.gopatch, cwd, args, timeout=30)
+    if code == "timeout":
+        ctx.count("slow_runs_repeated")
+        code, out, err = cl.gopatch(ctx.gopatch, cwd, args, timeout=240)
+    return code, out, err
+
 def mutate_bytes(rng, s):
     b = bytearray(s.encode())
     for _ in range(rng.randint(1, 3)):
@@ -4632,14 +4642,14 @@ def c08(ctx):
             f.write(c["patches"][0].encode("utf-8", "surrogateescape"))
         with open(os.path.join(root, "a.go"), "w") as f:
             f.write(c["src"])
-        code, out, err = cl.gopatch(ctx.gopatch, root, ["-p", "p.patch", "--print-only", "a.go"], timeout=20)
+        code, out, err = patient_gopatch(ctx, root, ["-p", "p.patch", "--print-only", "a.go"])
         shutil.rmtree(root, ignore_errors=True)
         return c, code, err.decode("utf-8", "replace")
     with ThreadPoolExecutor(max_workers=16) as ex:
         for c, code, err in ex.map(cli_one, sample):
             ctx.evaluations += 1
             if code == "timeout":
-                ctx.violation("the gopatch binary did not terminate within 20 s", {"input": {"patches": c["patches"], "src": c["src"]}})
+                ctx.violation("the gopatch binary did not terminate within 240 s", {"input": {"patches": c["patches"], "src": c["src"]}})
             elif code not in (0, 1) or "panic:" in err or "goroutine " in err:
                 ctx.violation(f"the gopatch binary crashed (exit {code}): {err[-300:]}", {"input": {"patches": c["patches"], "src": c["src"]}})
             elif code == 1 and not err.strip():
@@ -4654,7 +4664,7 @@ def c08(ctx):
         cl.write_tree(root, {"p.patch": good, "a.go": "package a\n\nfunc f() { foo(1) }\n"})
         with open(os.path.join(root, "list.txt"), "wb") as f:
             f.write(LISTS[k].encode("latin-1"))
-        code, out, err = cl.gopatch(ctx.gopatch, root, ["-P", "list.txt", "--print-only", "a.go"], timeout=20)
+        code, out, err = patient_gopatch(ctx, root, ["-P", "list.txt", "--print-only", "a.go"])
         # the same patch text on stdin, cut at every tenth byte
         res = [("-P " + repr(LISTS[k][:40]), code, err.decode("utf-8", "replace"))]
         shutil.rmtree(root, ignore_errors=True)
@@ -4664,7 +4674,7 @@ def c08(ctx):
         cl.write_tree(root, {"a.go": "package a\n\nfunc f() { foo(1) }\n"})
         try:
             r = subprocess.run([ctx.gopatch, "--print-only", "a.go"], cwd=root, input=good[:cut].encode(), stdout=subprocess.PIPE,
-                               stderr=subprocess.PIPE, timeout=20)
+                               stderr=subprocess.PIPE, timeout=240)
             res = [(f"stdin, first {cut} bytes of a valid patch", r.returncode, r.stderr.decode("utf-8", "replace"))]
         except subprocess.TimeoutExpired:
             res = [(f"stdin, first {cut} bytes of a valid patch", "timeout", "")]
@@ -4678,7 +4688,7 @@ def c08(ctx):
             ctx.count("patch_sources_other_than_-p")
             ctx.nontrivial.add("src:" + what)
             if code == "timeout":
-                ctx.violation(f"the gopatch binary did not terminate within 20 s ({what})", {"input": {"how": what, "patch": good}})
+                ctx.violation(f"the gopatch binary did not terminate within 240 s ({what})", {"input": {"how": what, "patch": good}})
             elif code not in (0, 1) or "panic:" in err or "goroutine " in err:
                 ctx.violation(f"the gopatch binary crashed (exit {code}) on {what}: {err[-300:]}", {"input": {"how": what, "patch": good}})
             elif code == 1 and not err.strip():
@@ -4694,14 +4704,14 @@ def c08(ctx):
         os.makedirs(os.path.join(root, "locked"))
         with open(os.path.join(root, "locked", "x.go"), "w") as f:
             f.write("package l\n\nfunc h() { foo(3) }\n")
-        code, out, err = cl.gopatch(ctx.gopatch, root, ["-p", "p.patch", "--print-only"] + args, timeout=20)
+        code, out, err = patient_gopatch(ctx, root, ["-p", "p.patch", "--print-only"] + args)
         res = [("targets " + " ".join(a[:40] for a in args), code, err.decode("utf-8", "replace"))]
         if k < len(UPWARD_ARGS):
             # the same tree seen from a directory deep inside it: targets that climb out of the working directory
             deep = os.path.join(root, "deep", "deeper", "and-deeper-still-so-that-the-way-up-is-long")
             os.makedirs(deep)
             for flags in (["--print-only"], ["--diff"], []):
-                c2, o2, e2 = cl.gopatch(ctx.gopatch, deep, ["-p", os.path.join(root, "p.patch")] + flags + UPWARD_ARGS[k], timeout=20)
+                c2, o2, e2 = patient_gopatch(ctx, deep, ["-p", os.path.join(root, "p.patch")] + flags + UPWARD_ARGS[k])
                 res.append((f"targets {' '.join(UPWARD_ARGS[k])} {' '.join(flags)} from three directories down", c2, e2.decode("utf-8", "replace")))
         shutil.rmtree(root, ignore_errors=True)
         return res
@@ -4713,7 +4723,7 @@ def c08(ctx):
             ctx.count("target_arguments")
             ctx.nontrivial.add("tgt:" + what)
             if code == "timeout":
-                ctx.violation(f"the gopatch binary did not terminate within 20 s ({what})", {"input": {"how": what, "patch": good}})
+                ctx.violation(f"the gopatch binary did not terminate within 240 s ({what})", {"input": {"how": what, "patch": good}})
             elif code not in (0, 1) or "panic:" in err or "goroutine " in err:
                 ctx.violation(f"the gopatch binary crashed (exit {code}) on {what}: {err[-300:]}", {"input": {"how": what, "patch": good}})
             elif code == 1 and not err.strip():
